@@ -562,6 +562,7 @@ func c12BlobFns(c *Ctx) {
 }
 
 var c12Canaries = []Canary{
+	{Name: "r7-export-keeps-pointer", ExpectKey: "C12.R5#export:blob-kept-only-if-not-a-pointer", Edits: []Edit{{File: "commands/command_migrate_export.go", Find: "\t\"github.com/git-lfs/git-lfs/v3/tools\"\n\t\"github.com/git-lfs/git-lfs/v3/tr\"\n\t\"github.com/git-lfs/gitobj/v2\"\n\t\"github.com/spf13/cobra\"\n)\n\n", Repl: "\t\"github.com/git-lfs/git-lfs/v3/tools\"\n\t\"github.com/git-lfs/git-lfs/v3/tr\"\n\t\"github.com/git-lfs/gitobj/v2\"\n\t\"github.com/rubyist/tracerx\"\n\t\"github.com/spf13/cobra\"\n)\n\n"}, {File: "commands/command_migrate_export.go", Find: "\t\t\t\treturn nil, err\n\t\t\t}\n\n\t\t\treturn gitobj.NewBlobFromFile(downloadPath)\n\t\t},\n\n", Repl: "\t\t\t\treturn nil, err\n\t\t\t}\n\n\t\t\tif _, err := os.Stat(downloadPath); os.IsNotExist(err) {\n\t\t\t\t// There was no remote to fetch this object from.\n\t\t\t\t// Keep the pointer, as the smudge filter does,\n\t\t\t\t// instead of aborting the whole export.\n\t\t\t\ttracerx.Printf(\"migrate export: %s: object %s not found, keeping pointer\", path, ptr.Oid)\n\t\t\t\treturn b, nil\n\t\t\t}\n\n\t\t\treturn gitobj.NewBlobFromFile(downloadPath)\n\t\t},\n\n"}}},
 	{Name: "r6-everything-without-tags", ExpectKey: "C12.R3#migrate-everything:includes", Edits: []Edit{{File: "commands/command_migrate.go", Find: "\n\t\tfor _, ref := range refs {\n\t\t\tswitch ref.Type {\n\t\t\tcase git.RefTypeLocalBranch, git.RefTypeLocalTag,\n\t\t\t\tgit.RefTypeRemoteBranch:\n\n\t\t\t\tinclude = append(include, ref.Refspec())\n\t\t\tcase git.RefTypeOther:\n\t\t\t\tif isSpecialGitRef(ref.Refspec()) {\n\t\t\t\t\tcontinue\n", Repl: "\n\t\tfor _, ref := range refs {\n\t\t\tswitch ref.Type {\n\t\t\tcase git.RefTypeLocalBranch, git.RefTypeRemoteBranch:\n\t\t\t\tinclude = append(include, ref.Refspec())\n\t\t\tcase git.RefTypeLocalTag:\n\t\t\t\t// Tags are moved onto the rewritten commits by\n\t\t\t\t// the ref updater once the walk has finished.\n\t\t\t\tcontinue\n\t\t\tcase git.RefTypeOther:\n\t\t\t\tif isSpecialGitRef(ref.Refspec()) {\n\t\t\t\t\tcontinue\n"}}},
 	{Name: "r5-migrate-uses-fetch-options", ExpectKey: "C12.R2#no-fetch-options", Edits: []Edit{{File: "commands/command_migrate.go", Find: "buildFilepathFilterWithPatternType(cfg, include, exclude, false, filepathfilter.GitAttributes)", Repl: "buildFilepathFilterWithPatternType(cfg, include, exclude, true, filepathfilter.GitAttributes)"}}},
 	{Name: "r4-no-rewrite-restarts", ExpectKey: "C12.R2#no-rewrite", Edits: []Edit{{File: "commands/command_migrate_import.go", Find: "root, err = rewriteTree(gf, db, root, file)", Repl: "root, err = rewriteTree(gf, db, commit.TreeID, file)"}}},
